@@ -1,5 +1,6 @@
 import Capella.Driver.Util
 import Capella.Model.Query
+import Capella.Model.QuerySave
 namespace Capella.Driver.Query
 open Lean Capella.Driver Capella.Query
 
@@ -103,6 +104,19 @@ def handle (op : String) (j : Json) : Except String Json := do
               Json.mkObj [("ok", jnats (scan nodes xts below))]))
     pure (Json.mkObj [("consistent", Json.bool (indexConsistentB nodes idx)),
       ("results", Json.arr (answers.map (·.1)).toArray), ("scans", Json.arr (answers.map (·.2)).toArray)])
+  | "saveindex" =>
+    -- the state right after `save()`: per semantic fragment, does `update_namespaces` replace the root
+    -- (prefixes declared before vs. prefixes in use) and what does the rebuilt type index look like
+    let nodes := (← (← (← j.getObjVal? "nodes").getArr?).toList.mapM parseNode).map (·.1)
+    let typed := typedItems nodes
+    let frs ← (← (← j.getObjVal? "frags").getArr?).toList.mapM (fun f => do
+      let lo ← f.getObjValAs? Nat "lo"
+      let hi ← f.getObjValAs? Nat "hi"
+      let declared ← getStrList f "declared"
+      let items := typed.filter (fun p => decide (lo ≤ p.1) && decide (p.1 < hi))
+      pure (Json.mkObj [("replace", Json.bool (needsNewRoot declared items)),
+        ("rebuilt", Json.arr ((rebuildOf items).map (fun p => Json.arr #[jstr p.1, jnats p.2])).toArray)]))
+    pure (Json.mkObj [("frags", Json.arr frs.toArray)])
   | "findrefs" =>
     let parsed ← (← (← j.getObjVal? "nodes").getArr?).toList.mapM parseNode
     let nodes := parsed.map (·.1)
